@@ -5,7 +5,7 @@ package routing
 // V: every gateway list of the exhaustive H=8 model (<=4 gateways, weights 1..6) is scaled (x1, x1000, x(2^31-1)/MaxW so that
 // the largest weight reaches 2^31-1) and given to the real code; the real 31-bit bounds must agree with TLC's 8-bit bounds
 // up to the resolution of the small model, and are written to obs.ndjson.
-// T: seeded random lists (1..16 gateways, weights up to 2^31-1, totals on both sides of 2^33) likewise. For every list a
+// T: seeded random lists (1..16 gateways, weights up to 2^31-1, totals on both sides of 2^33-1) likewise. For every list a
 // few port pairs are hashed and balanced; the choice must not depend on addresses, protocol or fragment flag and is
 // recorded with its hash; port pairs whose hash is exactly a bucket bound (and bound+1, 0) are added. Trace_Balance judges all observations with the reference relation at H=31.
 
@@ -206,10 +206,10 @@ func TestVerif_C40(t *testing.T) {
 			for i := range ws {
 				d := int64(o.Bounds[i]+1) - int64(v.Exp.Ends[i])<<23
 				if d < -(1<<22+1) || d > (1<<22 + 1) {
-					res.Mismatch("share:vector", fmt.Sprintf("weights %v: end of bucket %d is %d, the exhaustive model (H=8) has %d/256", ws, i, o.Bounds[i]+1, v.Exp.Ends[i]), o)
+					res.Mismatch("share:vector:"+o.Class, fmt.Sprintf("weights %v: end of bucket %d is %d, the exhaustive model (H=8) has %d/256", ws, i, o.Bounds[i]+1, v.Exp.Ends[i]), o)
 				}
 			}
-			if si == n%len(scales) && (!vQuick() || n%3 == 0) { // one scale per (third) vector goes to TLC
+			if si == n%len(scales) && n%3 == 0 { // one scale of every third vector goes to TLC
 				o.K = k
 				if err := enc.Encode(o); err != nil {
 					t.Fatal(err)
